@@ -17,6 +17,9 @@ import (
 )
 
 // case ids of this package start here (one runner evidence table for all packages)
+// directory of this package inside the repository (race signatures are made relative to the repository root)
+const vC18PkgDir = "pintracker/stateless"
+
 const vC18IDBase = 200
 
 var vC18Plan = []vC18Scen{
